@@ -69,11 +69,9 @@ def generate_jakes_samples(
         instance, if a `shape` of (3, 2) was provided then the shape of the
         returned h will be (3, 2, NSamples).
     """
-    # Generate time samples
-    t = np.arange(
-        current_time,  # Start time
-        NSamples * Ts + current_time,
-        Ts * 1.0000000001)
+    # Generate time samples. The number of points must not depend on
+    # floating point rounding of the (possibly very large) start time.
+    t = current_time + np.arange(NSamples) * Ts
 
     if phi_l is None:
         if shape is None:
@@ -90,7 +88,7 @@ def generate_jakes_samples(
     # Update the self._current_time variable with the value of the next
     # time sample that should be generated when _generate_time_samples
     # is called again.
-    new_current_time = t[-1] + Ts
+    new_current_time = current_time + NSamples * Ts
 
     h = (math.sqrt(1.0 / L) * np.sum(
         np.exp(1j * (2 * np.pi * Fd * np.cos(phi_l) * t + psi_l)), axis=0))
@@ -456,15 +454,14 @@ class JakesSampleGenerator(FadingSampleGenerator):
             num_samples = 1
 
         # Generate a 1D numpy with the time samples
-        t = np.arange(
-            self._current_time,  # Start time
-            num_samples * self.Ts + self._current_time,
-            self.Ts * 1.0000000001)
+        # The number of points must not depend on floating point rounding
+        # of the (possibly very large) current time.
+        t = self._current_time + np.arange(num_samples) * self.Ts
 
         # Update the self._current_time variable with the value of the next
         # time sample that should be generated when _generate_time_samples
         # is called again.
-        self._current_time = t[-1] + self.Ts
+        self._current_time += num_samples * self.Ts
 
         # Now we will change the shape of the 't' variable to an
         # appropriated shape for later use.
